@@ -1,21 +1,669 @@
 package main
 
+// goverif: contract-based verification-condition generator for Go (go/ssa, NaiveForm).
+//
+//   goverif gen -prop C16 -pkgs lang,lang/types -out DIR [-sweep pkg,...]
+//
+// loads the packages from /repo's working tree (build tag verif), reads //@ contracts from
+// <pkg>/zz_verif_contracts.go and /verif/specs/*.spec, and writes one SMT-LIB2 query per obligation
+// plus DIR/obligations.json.
+
 import (
-	"os"
+	"encoding/json"
+	"flag"
 	"fmt"
+	"go/types"
+	"os"
+	"path/filepath"
+	"sort"
+	"strings"
+	"time"
+
 	"golang.org/x/tools/go/packages"
 	"golang.org/x/tools/go/ssa"
 	"golang.org/x/tools/go/ssa/ssautil"
 )
 
+const murexRoot = "github.com/lmorg/murex/"
+
+type Verifier struct {
+	prog      *ssa.Program
+	pkgs      []*packages.Package
+	allPkgs   map[string]*packages.Package
+	contracts *Contracts
+	pkgByName map[string]*types.Package
+	closures  map[string]map[string]bool
+	pureMemo  map[*ssa.Function]int
+	srcCache  map[string][]string
+	allFuncs  map[*ssa.Function]bool
+	repo      string
+}
+
+type FuncReport struct {
+	Func        string         `json:"func"`
+	Package     string         `json:"package"`
+	Scope       string         `json:"scope"`
+	Tags        []string       `json:"tags"`
+	Trusted     bool           `json:"trusted"`
+	Obligations int            `json:"obligations"`
+	ByKind      map[string]int `json:"by_kind"`
+	CallRules   map[string]int `json:"call_rules"`
+	Relied      []string       `json:"relied_on_contracts"`
+	Assumptions []string       `json:"assumptions"`
+	Error       string         `json:"error,omitempty"`
+	Loops       int            `json:"loops"`
+	Blocks      int            `json:"blocks"`
+	Instrs      int            `json:"instrs"`
+	Source      string         `json:"source"`
+}
+
+type Output struct {
+	Property    string        `json:"property"`
+	Functions   []FuncReport  `json:"functions"`
+	Obligations []*Obligation `json:"obligations"`
+	Externs     []string      `json:"externs_used"`
+	TrustedFns  []string      `json:"trusted"`
+	Faults      []string      `json:"faults"`
+	Files       []string      `json:"contract_files"`
+	InferredPure []string     `json:"inferred_pure"`
+}
+
 func main() {
-	cfg := &packages.Config{Mode: packages.LoadAllSyntax, Dir: "/repo", BuildFlags: []string{"-tags=verif"}}
-	pkgs, err := packages.Load(cfg, "github.com/lmorg/murex/lang")
-	if err != nil {
-		panic(err)
+	if len(os.Args) < 2 {
+		fmt.Fprintln(os.Stderr, "usage: goverif gen|dump ...")
+		os.Exit(2)
 	}
-	prog, spkgs := ssautil.AllPackages(pkgs, ssa.NaiveForm|ssa.InstantiateGenerics)
-	prog.Build()
-	fmt.Println(len(spkgs), spkgs[0].Func("isValidElementIndex"))
-	spkgs[0].Func("isValidElementIndex").WriteTo(os.Stdout)
+	switch os.Args[1] {
+	case "gen":
+		gen(os.Args[2:])
+	case "dump":
+		dump(os.Args[2:])
+	default:
+		fmt.Fprintln(os.Stderr, "unknown command")
+		os.Exit(2)
+	}
+}
+
+func load(repo string, pkgPaths []string) *Verifier {
+	mode := packages.LoadAllSyntax
+	if os.Getenv("GOVERIF_FULLLOAD") == "" {
+		mode = packages.LoadSyntax
+	}
+	cfg := &packages.Config{Mode: mode, Dir: repo, BuildFlags: []string{"-tags=verif"}}
+	var pats []string
+	for _, p := range pkgPaths {
+		if p == "." || p == "" {
+			pats = append(pats, strings.TrimSuffix(murexRoot, "/"))
+		} else {
+			pats = append(pats, murexRoot+p)
+		}
+	}
+	tl := time.Now()
+	pkgs, err := packages.Load(cfg, pats...)
+	if os.Getenv("GOVERIF_TIMING") != "" {
+		fmt.Fprintln(os.Stderr, "packages.Load", time.Since(tl))
+	}
+	if err != nil {
+		fmt.Fprintln(os.Stderr, "load:", err)
+		os.Exit(2)
+	}
+	bad := false
+	packages.Visit(pkgs, nil, func(p *packages.Package) {
+		for _, e := range p.Errors {
+			fmt.Fprintln(os.Stderr, "load error:", e)
+			bad = true
+		}
+	})
+	if bad {
+		os.Exit(2)
+	}
+	t0 := time.Now()
+	prog, _ := ssautil.AllPackages(pkgs, ssa.NaiveForm|ssa.InstantiateGenerics)
+	// build function bodies only for murex packages: callees elsewhere are used through contracts
+	for _, p := range prog.AllPackages() {
+		if strings.HasPrefix(p.Pkg.Path(), strings.TrimSuffix(murexRoot, "/")) {
+			p.Build()
+		}
+	}
+	if os.Getenv("GOVERIF_TIMING") != "" {
+		fmt.Fprintln(os.Stderr, "ssa build", time.Since(t0))
+	}
+	v := &Verifier{prog: prog, pkgs: pkgs, contracts: NewContracts(), pkgByName: map[string]*types.Package{},
+		closures: map[string]map[string]bool{}, pureMemo: map[*ssa.Function]int{}, srcCache: map[string][]string{},
+		allPkgs: map[string]*packages.Package{}, repo: repo}
+	packages.Visit(pkgs, nil, func(p *packages.Package) {
+		v.allPkgs[p.PkgPath] = p
+		if p.Types == nil {
+			return
+		}
+		if _, dup := v.pkgByName[p.Name]; !dup || strings.HasPrefix(p.PkgPath, murexRoot) {
+			v.pkgByName[p.Name] = p.Types
+		}
+	})
+	if mode != packages.LoadAllSyntax {
+		// the import graph of all dependencies (cheap: go list only) for the import-closure frame rule
+		gcfg := &packages.Config{Mode: packages.NeedName | packages.NeedImports | packages.NeedDeps, Dir: repo, BuildFlags: []string{"-tags=verif"}}
+		gp, err := packages.Load(gcfg, pats...)
+		if err != nil {
+			fmt.Fprintln(os.Stderr, "load (import graph):", err)
+			os.Exit(2)
+		}
+		packages.Visit(gp, nil, func(p *packages.Package) {
+			if old, ok := v.allPkgs[p.PkgPath]; !ok || len(old.Imports) == 0 {
+				v.allPkgs[p.PkgPath] = p
+			}
+		})
+		// types of imported packages by name, for package-qualified identifiers in contracts
+		for _, sp := range prog.AllPackages() {
+			if _, dup := v.pkgByName[sp.Pkg.Name()]; !dup {
+				v.pkgByName[sp.Pkg.Name()] = sp.Pkg
+			}
+		}
+	}
+	ta := time.Now()
+	v.allFuncs = ssautil.AllFunctions(prog)
+	if os.Getenv("GOVERIF_TIMING") != "" {
+		fmt.Fprintln(os.Stderr, "AllFunctions", time.Since(ta), len(v.allFuncs))
+	}
+	return v
+}
+
+func (v *Verifier) loadContracts(specDir string) error {
+	// spec files first (externs, spec functions)
+	files, _ := filepath.Glob(filepath.Join(specDir, "*.spec"))
+	sort.Strings(files)
+	for _, f := range files {
+		if err := v.contracts.LoadFile(f, ""); err != nil {
+			return err
+		}
+	}
+	var paths []string
+	for p := range v.allPkgs {
+		if strings.HasPrefix(p, murexRoot) || p+"/" == murexRoot {
+			paths = append(paths, p)
+		}
+	}
+	sort.Strings(paths)
+	for _, p := range paths {
+		rel := strings.TrimPrefix(p, murexRoot)
+		if p+"/" == murexRoot {
+			rel = ""
+		}
+		f := filepath.Join(v.repo, rel, "zz_verif_contracts.go")
+		if _, err := os.Stat(f); err == nil {
+			key := rel
+			if err := v.contracts.LoadFile(f, key); err != nil {
+				return err
+			}
+		}
+	}
+	return nil
+}
+
+func (v *Verifier) relPkg(p *types.Package) string {
+	if p == nil {
+		return ""
+	}
+	return strings.TrimPrefix(p.Path(), murexRoot)
+}
+
+func (v *Verifier) fnPkg(fn *ssa.Function) *types.Package {
+	for f := fn; f != nil; f = f.Parent() {
+		if f.Pkg != nil {
+			return f.Pkg.Pkg
+		}
+		if o := f.Origin(); o != nil && o.Pkg != nil {
+			return o.Pkg.Pkg
+		}
+	}
+	if fn.Object() != nil {
+		return fn.Object().Pkg()
+	}
+	return nil
+}
+
+// funcRel is the contract key of a function inside its package: "isValidElementIndex",
+// "(*jobs).GarbageCollect", "readArray$2"; generic instances use the origin's name.
+func (v *Verifier) funcRel(fn *ssa.Function) string {
+	f := fn
+	if o := fn.Origin(); o != nil {
+		f = o
+	}
+	pkg := v.fnPkg(f)
+	s := f.RelString(pkg)
+	return s
+}
+
+func (v *Verifier) funcKey(fn *ssa.Function) string {
+	pkg := v.fnPkg(fn)
+	if pkg == nil {
+		return fn.String()
+	}
+	if strings.HasPrefix(pkg.Path(), murexRoot) || pkg.Path()+"/" == murexRoot {
+		return v.relPkg(pkg) + ":" + v.funcRel(fn)
+	}
+	f := fn
+	if o := fn.Origin(); o != nil {
+		f = o
+	}
+	return f.String()
+}
+
+func (v *Verifier) funcDisplay(fn *ssa.Function) string {
+	pkg := v.fnPkg(fn)
+	if pkg == nil {
+		return fn.String()
+	}
+	return v.relPkg(pkg) + "." + v.funcRel(fn)
+}
+
+func (v *Verifier) contractFor(fn *ssa.Function) *FuncContract {
+	return v.contracts.Funcs[v.funcKey(fn)]
+}
+
+func (v *Verifier) importClosure(path string) map[string]bool {
+	if c, ok := v.closures[path]; ok {
+		return c
+	}
+	c := map[string]bool{}
+	var walk func(p string)
+	walk = func(p string) {
+		if c[p] {
+			return
+		}
+		c[p] = true
+		if pk := v.allPkgs[p]; pk != nil {
+			for ip := range pk.Imports {
+				walk(ip)
+			}
+		}
+	}
+	walk(path)
+	v.closures[path] = c
+	return c
+}
+
+// inferPure: leaf functions with no store to non-local memory, no map update, no channel operation
+// and only calls to functions already so classified (mutex operations exempt).
+func (v *Verifier) inferPure(fn *ssa.Function) bool {
+	switch v.pureMemo[fn] {
+	case 1:
+		return true
+	case 2:
+		return false
+	case 3:
+		return false // recursion: not pure
+	}
+	v.pureMemo[fn] = 3
+	ok := v.inferPure1(fn)
+	if ok {
+		v.pureMemo[fn] = 1
+	} else {
+		v.pureMemo[fn] = 2
+	}
+	return ok
+}
+
+func (v *Verifier) inferPure1(fn *ssa.Function) bool {
+	if len(fn.Blocks) == 0 {
+		return false
+	}
+	pkg := v.fnPkg(fn)
+	if pkg == nil || !(strings.HasPrefix(pkg.Path(), murexRoot)) {
+		return false
+	}
+	for _, b := range fn.Blocks {
+		for _, in := range b.Instrs {
+			switch x := in.(type) {
+			case *ssa.Store:
+				if !localAddr(x.Addr) {
+					return false
+				}
+			case *ssa.MapUpdate, *ssa.Send, *ssa.Go, *ssa.Select, *ssa.Panic:
+				return false
+			case *ssa.Defer:
+				if !v.pureCall(x.Common()) {
+					return false
+				}
+			case *ssa.Call:
+				if !v.pureCall(x.Common()) {
+					return false
+				}
+			case *ssa.UnOp:
+				if x.Op.String() == "<-" {
+					return false
+				}
+			}
+		}
+	}
+	return true
+}
+
+func localAddr(a ssa.Value) bool {
+	switch x := a.(type) {
+	case *ssa.Alloc:
+		return true
+	case *ssa.FieldAddr:
+		return localAddr(x.X)
+	case *ssa.IndexAddr:
+		if al, ok := x.X.(*ssa.Alloc); ok {
+			_ = al
+			return true
+		}
+	}
+	return false
+}
+
+func (v *Verifier) pureCall(c *ssa.CallCommon) bool {
+	if c.IsInvoke() {
+		return false
+	}
+	switch f := c.Value.(type) {
+	case *ssa.Builtin:
+		switch f.Name() {
+		case "len", "cap", "min", "max", "ssa:wrapnilchk", "ssa:deferstack":
+			return true
+		}
+		return false
+	case *ssa.Function:
+		switch f.String() {
+		case "(*sync.Mutex).Lock", "(*sync.Mutex).Unlock", "(*sync.RWMutex).Lock", "(*sync.RWMutex).Unlock",
+			"(*sync.RWMutex).RLock", "(*sync.RWMutex).RUnlock", "sync/atomic.LoadInt32", "sync/atomic.LoadInt64",
+			"sync/atomic.LoadUint32", "(*sync/atomic.Bool).Load", "(*sync/atomic.Int32).Load", "(*sync/atomic.Int64).Load",
+			"strings.Contains", "strings.HasPrefix", "strings.HasSuffix", "strings.ToLower", "strings.TrimSpace",
+			"(*context.cancelCtx).Done", "(*context.cancelCtx).Err":
+			return true
+		}
+		if fc := v.contractFor(f); fc != nil && (fc.Pure || fc.ModNothing) {
+			return true
+		}
+		return v.inferPure(f)
+	}
+	return false
+}
+
+func (v *Verifier) sourceLine(file string, line int) string {
+	ls, ok := v.srcCache[file]
+	if !ok {
+		b, err := os.ReadFile(file)
+		if err == nil {
+			ls = strings.Split(string(b), "\n")
+		}
+		v.srcCache[file] = ls
+	}
+	if line-1 < len(ls) && line > 0 {
+		return strings.TrimSpace(ls[line-1])
+	}
+	return ""
+}
+
+func (v *Verifier) findFunc(pkgRel, key string) []*ssa.Function {
+	var out []*ssa.Function
+	for fn := range v.allFuncs {
+		pkg := v.fnPkg(fn)
+		if pkg == nil || v.relPkg(pkg) != pkgRel {
+			continue
+		}
+		if fn.Synthetic != "" && fn.Origin() == nil {
+			continue
+		}
+		if v.funcRel(fn) == key {
+			// generic origin bodies are verified through their instances
+			if fn.TypeParams().Len() > 0 && len(fn.TypeArgs()) == 0 {
+				continue
+			}
+			out = append(out, fn)
+		}
+	}
+	sort.Slice(out, func(i, j int) bool { return out[i].String() < out[j].String() })
+	return out
+}
+
+func (v *Verifier) verifyFunc(fn *ssa.Function, fc *FuncContract, em *Emitter, guardOnly bool) (fx *FuncExec, err error) {
+	fx = &FuncExec{V: v, fn: fn, fc: fc, em: em, vals: map[ssa.Value]Val{}, counts: map[string]int{},
+		heapInfos: map[string]*heapInfo{}, freshRefs: map[string]bool{}, callStats: map[string]int{},
+		usedContracts: map[string]bool{}, assumptions: map[string]bool{}, usedCallSites: map[*CallSiteSpec]bool{}, guardOnly: guardOnly}
+	if fc != nil && fc.Scope == "functional" {
+		fx.functional = true
+	}
+	defer func() {
+		if r := recover(); r != nil {
+			if tl, ok := r.(toolLimitErr); ok {
+				err = tl
+				return
+			}
+			panic(r)
+		}
+	}()
+	fx.Run()
+	if fc != nil {
+		for _, cs := range fc.Calls {
+			if !fx.usedCallSites[cs] {
+				return fx, toolLimit("contract of %s: call site %s#%d not found", fx.relName(), cs.Callee, cs.Ordinal)
+			}
+		}
+	}
+	return fx, nil
+}
+
+func gen(args []string) {
+	fs := flag.NewFlagSet("gen", flag.ExitOnError)
+	prop := fs.String("prop", "", "property id (selects contracts tagged with it)")
+	pkgsF := fs.String("pkgs", "", "comma separated package paths relative to the murex root")
+	out := fs.String("out", "", "output directory")
+	repo := fs.String("repo", "/repo", "repository root")
+	specs := fs.String("specs", "/verif/specs", "directory with *.spec files")
+	sweep := fs.String("sweep", "", "packages whose every function is checked for guard obligations")
+	only := fs.String("only", "", "verify only this function key (debug)")
+	fs.Parse(args)
+	os.MkdirAll(*out, 0o755)
+	pkgList := strings.Split(*pkgsF, ",")
+	v := load(*repo, pkgList)
+	res := &Output{Property: *prop}
+	if err := v.loadContracts(*specs); err != nil {
+		res.Faults = append(res.Faults, err.Error())
+		writeOutput(*out, res)
+		return
+	}
+	res.Files = v.contracts.Files
+	var keys []string
+	for k, fc := range v.contracts.Funcs {
+		if fc.Extern {
+			continue
+		}
+		if fc.HasTag(*prop) {
+			keys = append(keys, k)
+		}
+	}
+	sort.Strings(keys)
+	seq := 0
+	for _, k := range keys {
+		fc := v.contracts.Funcs[k]
+		if *only != "" && fc.Key != *only {
+			continue
+		}
+		fns := v.findFunc(fc.Pkg, fc.Key)
+		if len(fns) == 0 {
+			res.Faults = append(res.Faults, fmt.Sprintf("function under contract not found: %s (%s)", k, fc.Src))
+			continue
+		}
+		if fc.Trusted {
+			res.TrustedFns = append(res.TrustedFns, k)
+			res.Functions = append(res.Functions, FuncReport{Func: fc.Pkg + "." + fc.Key, Package: fc.Pkg, Scope: "trusted", Tags: fc.Tags, Trusted: true})
+			continue
+		}
+		for _, fn := range fns {
+			em := NewEmitter()
+			fx, err := v.verifyFunc(fn, fc, em, false)
+			rep := FuncReport{Func: v.funcDisplay(fn), Package: fc.Pkg, Scope: fc.Scope, Tags: fc.Tags, ByKind: map[string]int{}, Source: fc.Src,
+				Blocks: len(fn.Blocks)}
+			if fn.String() != "" && len(fn.TypeArgs()) > 0 {
+				rep.Func = v.relPkg(v.fnPkg(fn)) + "." + fn.RelString(v.fnPkg(fn))
+			}
+			for _, b := range fn.Blocks {
+				rep.Instrs += len(b.Instrs)
+			}
+			if err != nil {
+				rep.Error = err.Error()
+				res.Faults = append(res.Faults, fmt.Sprintf("%s: %v", rep.Func, err))
+				res.Functions = append(res.Functions, rep)
+				continue
+			}
+			rep.Loops = len(fx.loops)
+			rep.CallRules = fx.callStats
+			for c := range fx.usedContracts {
+				rep.Relied = append(rep.Relied, c)
+			}
+			sort.Strings(rep.Relied)
+			for a := range fx.assumptions {
+				rep.Assumptions = append(rep.Assumptions, a)
+			}
+			sort.Strings(rep.Assumptions)
+			prelude := em.Prelude()
+			for _, ob := range fx.obls {
+				seq++
+				if len(fn.TypeArgs()) > 0 {
+					ob.Name = strings.Replace(ob.Name, fx.relName(), rep.Func, 1)
+					ob.Func = rep.Func
+				}
+				ob.Props = fc.Tags
+				rep.ByKind[ob.Kind]++
+				rep.Obligations++
+				ob.File = fmt.Sprintf("o%04d.smt2", seq)
+				writeQuery(filepath.Join(*out, ob.File), prelude, em, ob)
+				res.Obligations = append(res.Obligations, ob)
+			}
+			res.Functions = append(res.Functions, rep)
+		}
+	}
+	// guard sweep
+	if *sweep != "" {
+		for _, sp := range strings.Split(*sweep, ",") {
+			var fns []*ssa.Function
+			for fn := range v.allFuncs {
+				pkg := v.fnPkg(fn)
+				if pkg == nil || v.relPkg(pkg) != sp || len(fn.Blocks) == 0 {
+					continue
+				}
+				if fn.Synthetic != "" {
+					continue
+				}
+				if fc := v.contractFor(fn); fc != nil && fc.HasTag(*prop) && !fc.Trusted {
+					continue // already verified in full above
+				}
+				if strings.HasPrefix(fn.Name(), "verifLemma") || strings.HasPrefix(fn.Name(), "init") {
+					continue
+				}
+				fns = append(fns, fn)
+			}
+			sort.Slice(fns, func(i, j int) bool { return fns[i].String() < fns[j].String() })
+			for _, fn := range fns {
+				em := NewEmitter()
+				fc := v.contractFor(fn)
+				fx, err := v.verifyFunc(fn, sweepContract(fc), em, true)
+				rep := FuncReport{Func: v.funcDisplay(fn), Package: sp, Scope: "guard-sweep", ByKind: map[string]int{}, Blocks: len(fn.Blocks)}
+				if err != nil {
+					rep.Error = err.Error()
+					res.Functions = append(res.Functions, rep)
+					continue
+				}
+				prelude := em.Prelude()
+				for _, ob := range fx.obls {
+					if ob.Kind != "guard" && ob.Kind != "unlock" && ob.Kind != "relock" {
+						continue
+					}
+					seq++
+					ob.Props = []string{*prop}
+					rep.ByKind[ob.Kind]++
+					rep.Obligations++
+					ob.File = fmt.Sprintf("o%04d.smt2", seq)
+					writeQuery(filepath.Join(*out, ob.File), prelude, em, ob)
+					res.Obligations = append(res.Obligations, ob)
+				}
+				if rep.Obligations > 0 {
+					res.Functions = append(res.Functions, rep)
+				}
+			}
+		}
+	}
+	ext := map[string]bool{}
+	for k, fc := range v.contracts.Funcs {
+		if fc.Extern {
+			ext[k] = true
+		}
+	}
+	used := map[string]bool{}
+	for _, fr := range res.Functions {
+		for _, r := range fr.Relied {
+			if ext[r] {
+				used[r] = true
+			}
+		}
+	}
+	for k := range used {
+		res.Externs = append(res.Externs, k)
+	}
+	sort.Strings(res.Externs)
+	for fn, st := range v.pureMemo {
+		if st == 1 {
+			res.InferredPure = append(res.InferredPure, v.funcDisplay(fn))
+		}
+	}
+	sort.Strings(res.InferredPure)
+	writeOutput(*out, res)
+}
+
+// sweepContract keeps only the precondition (held locks) of a contract for the guard sweep.
+func sweepContract(fc *FuncContract) *FuncContract {
+	if fc == nil {
+		return nil
+	}
+	return &FuncContract{Key: fc.Key, Pkg: fc.Pkg, Requires: fc.Requires, Loops: map[string]*LoopSpec{}, Scope: "functional", Src: fc.Src}
+}
+
+func writeQuery(path, prelude string, em *Emitter, ob *Obligation) {
+	var b strings.Builder
+	b.WriteString("; obligation " + ob.Name + "\n; " + ob.Desc + "\n; " + ob.Pos + "  " + ob.Code + "\n")
+	b.WriteString(prelude)
+	for _, l := range em.lines[:ob.prefix] {
+		b.WriteString(l)
+		b.WriteByte('\n')
+	}
+	b.WriteString("(assert " + ob.pc + ")\n")
+	b.WriteString("(assert (not " + ob.goal + "))\n")
+	b.WriteString("(check-sat)\n")
+	if len(ob.Model) > 0 {
+		var ks []string
+		for k := range ob.Model {
+			ks = append(ks, k)
+		}
+		sort.Strings(ks)
+		var ts []string
+		for _, k := range ks {
+			ts = append(ts, ob.Model[k])
+		}
+		b.WriteString("(get-value (" + strings.Join(ts, " ") + "))\n")
+	}
+	os.WriteFile(path, []byte(b.String()), 0o644)
+}
+
+func writeOutput(dir string, res *Output) {
+	b, _ := json.MarshalIndent(res, "", " ")
+	os.WriteFile(filepath.Join(dir, "obligations.json"), b, 0o644)
+	fmt.Printf("functions=%d obligations=%d faults=%d\n", len(res.Functions), len(res.Obligations), len(res.Faults))
+	for _, f := range res.Faults {
+		fmt.Println("FAULT:", f)
+	}
+}
+
+func dump(args []string) {
+	v := load("/repo", []string{args[0]})
+	for fn := range v.allFuncs {
+		for _, n := range args[1:] {
+			if v.funcDisplay(fn) == n || fn.Name() == n {
+				fmt.Println("==", fn.String(), "key:", v.funcKey(fn))
+				fn.WriteTo(os.Stdout)
+			}
+		}
+	}
 }
